@@ -198,10 +198,17 @@ func (l *lexer) scan() {
 		if l.src[0] == '#' && l.src[1] == '!' {
 			t := bytes.IndexByte(l.src, '\n')
 			if t == -1 {
-				t = len(l.src) - 1
+				column := l.column
+				for _, c := range l.src {
+					if isStartChar(c) {
+						l.column++
+					}
+				}
+				l.emitAtLineColumn(l.line, column, tokenShebangLine, len(l.src))
+			} else {
+				l.emit(tokenShebangLine, t+1)
+				l.line++
 			}
-			l.emit(tokenShebangLine, t+1)
-			l.line++
 		}
 	}
 
